@@ -2259,6 +2259,17 @@ func (c *Conn) handleIncomingPacket(
 		return outcome, nil
 	}
 
+	if prepared.header.Epoch == 0 && c.handshakeEstablished != nil && c.isHandshakeCompletedSuccessfully() {
+		// Once the handshake has completed the peer protects everything it sends.
+		// An alert, application data or anything else that still arrives in the
+		// clear can have been written by anybody: acting on it (closing the
+		// connection, answering with a fatal alert, failing a Read) would let a
+		// spoofed datagram end the session. Discard it silently
+		// [RFC6347 Section-4.1.2.7]. Retransmitted handshake messages have been
+		// taken care of above.
+		return packetOutcome{}, nil
+	}
+
 	r := &recordlayer.RecordLayer{}
 	if err := r.Unmarshal(prepared.buf); err != nil {
 		return packetOutcome{
